@@ -348,7 +348,51 @@ func ZZC08Item() {
 	}
 }
 
+// ZZC08Dup: a rule written twice in one annotation is refused whatever the node is - a literal, a
+// container, a type shortcut or a list of alternatives - and whatever the two values are.
+func ZZC08Dup() {
+	nodes := []string{`5`, `"a"`, `true`, `null`, `@t`, `@t | @u`, `{}`, `[]`}
+	node := nodes[v.Choose(0, len(nodes)-1)]
+	rules := [][2]string{
+		{"nullable", "true"}, {"nullable", "false"}, {"optional", "true"}, {"optional", "false"}, {"const", "false"}, {"const", "true"},
+		{"min", "1"}, {"minLength", "1"}, {"type", `"any"`}, {"minItems", "0"}, {"additionalProperties", "true"},
+	}
+	r1 := rules[v.Choose(0, len(rules)-1)]
+	r2 := r1
+	if v.Choose(0, 1) == 1 {
+		// the same rule with another value
+		for _, r := range rules {
+			if r[0] == r1[0] && r[1] != r1[1] {
+				r2 = r
+			}
+		}
+	}
+	asProp := v.Choose(0, 1) == 1
+	ann := " // {" + r1[0] + ": " + r1[1] + ", " + r2[0] + ": " + r2[1] + "}"
+	single := " // {" + r1[0] + ": " + r1[1] + "}"
+	build := func(a string) string {
+		if asProp {
+			return "{\n  \"k\": " + node + a + "\n}"
+		}
+		return node + a
+	}
+	v.Observe("schema", build(ann))
+	check := func(text string) error {
+		s := jschema.New("s", text)
+		_ = s.AddType("@t", jschema.New("@t", `{"x": 1}`))
+		_ = s.AddType("@u", jschema.New("@u", `"s"`))
+		return s.Check()
+	}
+	v.Assert(check(build(ann)) != nil, "C08/duplicate-rule-accepted")
+	if check(build(single)) == nil {
+		v.Reach("C08/dup-of-applicable-rule")
+	} else {
+		v.Reach("C08/dup-of-inapplicable-rule")
+	}
+}
+
 func init() {
+	ZZHarnesses["ZZC08Dup"] = ZZC08Dup
 	ZZHarnesses["ZZC08Item"] = ZZC08Item
 	ZZHarnesses["ZZC08Triples"] = ZZC08Triples
 	ZZHarnesses["ZZC08Order"] = ZZC08Order
